@@ -28,11 +28,14 @@ fi
 suite=ok; grep -q "^FAIL\|^--- FAIL" /tmp/mutant-suite.log && suite=FAIL
 echo "== confirmed: demo clean exit=$clean (want 0), demo with change exit=$mut (want !=0), existing suite: $suite"
 git -C /repo worktree remove --force $W
-trap 'git -C /repo checkout -- .' EXIT INT TERM
+# evidence files are rewritten by every run: what is committed must come from the unchanged tree
+rm -rf /tmp/evidence.keep && cp -r /verif/evidence /tmp/evidence.keep
+trap 'git -C /repo checkout -- .; cp /tmp/evidence.keep/*.json /verif/evidence/ 2>/dev/null' EXIT INT TERM
 git -C /repo apply $D/patch.diff || exit 4
 for c in "$@"; do
   out=$(cd /verif && timeout 600 bin/check $c 2>&1); rc=$?
   echo "== check $c exit=$rc"; echo "$out" | grep -E "VIOLATION|^  " | head -4
 done
 git -C /repo checkout -- .
+cp /tmp/evidence.keep/*.json /verif/evidence/ 2>/dev/null
 git -C /repo status --short
